@@ -98,18 +98,19 @@ class FakeProcess:
 
     def start(self):
         ctl = CTL
-        self.started = True
-        self.alive = True
         fid = self.kwargs['future_id']
         thunk = self.kwargs['thunk']
+        task = task_of(thunk)
+        if ctl.start_method == 'spawn':
+            # multiprocessing pickles the process object in the parent BEFORE the child exists
+            thunk = pickle.loads(pickle.dumps(thunk))
+        self.started = True
+        self.alive = True
         ctl.procs[fid] = self
         ctl.order.append(fid)
-        task = task_of(thunk)
         ctl.events.append(('B', getattr(task, 'k', None), sum(1 for q in ctl.procs.values() if q.alive)))
         if task is not None and getattr(task, 'k', None) in ctl.die:
             return  # never runs, never reports
-        if ctl.start_method == 'spawn':
-            thunk = pickle.loads(pickle.dumps(thunk))
         r, w = os.pipe()
         pid = os.fork()
         if pid == 0:
